@@ -119,6 +119,7 @@ structure World where
   streams : Nat → Stream := fun _ => {}
   procs : Nat → Option (Nat × Nat) := fun _ => none     -- proc k is waited on by (fiber, sched_id)
   bodies : Nat → Bool := fun _ => false                 -- body b (a with-deadline coroutine) is resumable
+  bodyDead : Nat → Bool := fun _ => false               -- ghost: body b has finished (dead / error status)
   timers : List Timer := []                             -- kept sorted by `when` (stable): abstraction of the heap
   queue : List Task := []
   log : List Event := []                                -- ghost, newest first
@@ -314,8 +315,10 @@ def step (cfg : Cfg) (w : World) : Op → World
   | .sleep f d => addTimer cfg w f .sleep d
   | .timeout f d => addTimer cfg w f .timeout d
   | .deadline f b d => addTimer cfg w f (.deadline b) d
-  | .bodyStart b => { w with bodies := set w.bodies b true }
-  | .bodyDone b => { w with bodies := set w.bodies b false }
+  -- a finished fiber never becomes resumable again: status monotonicity of fibers, proved for the fiber model in
+  -- Props/C05 (`status_monotone`, `finished_is_forever`); here it is part of the transition relation
+  | .bodyStart b => if w.bodyDead b then w else { w with bodies := set w.bodies b true }
+  | .bodyDone b => { w with bodies := set w.bodies b false, bodyDead := set w.bodyDead b true }
   | .fiberDead f => { w with fibers := set w.fibers f { w.fibers f with dead := true } }
   | .asyncStart f s r => asyncStart w f s r
   | .streamEvent s r v e => streamEvent cfg w s r v e
